@@ -358,6 +358,14 @@ func (r *layoutRun) step(rng *rand.Rand) {
 					c.sub = append(c.sub[:j], c.sub[j+1:]...)
 					c.subfills = append(c.subfills[:j], c.subfills[j+1:]...)
 					r.observe("NestedRemove")
+				} else if rng.Intn(2) == 0 { // the nested layout turns: its preferred size changes with it
+					c.nhoriz = !c.nhoriz
+					if c.nhoriz {
+						c.nest.SetOrientation(views.Horizontal)
+					} else {
+						c.nest.SetOrientation(views.Vertical)
+					}
+					r.observe("NestedOrient")
 				} else if len(c.sub) < 4 {
 					g := &stubWidget{pw: rng.Intn(7), ph: rng.Intn(5), id: r.nextq}
 					r.nextq++
